@@ -22,7 +22,7 @@ VARIABLES input,   \* [ptr, mods : Seq(Module)]  -- chosen initially, never chan
           reg,     \* the type registry
           start,   \* unresolved set at the beginning of the current pass
           todo,    \* items of the current pass not yet attempted
-          hist,    \* schedule taken: sequence (per pass) of sequences of paths
+          hist,    \* schedule taken: per pass [s : unresolved set at its start, p : picks in order]
           err,     \* "" or the failure class
           out      \* emitted files: a set of abstract files (each carries its path)
 
@@ -94,7 +94,7 @@ BeginPass ==
   /\ Len(added) = Len(input.mods)
   /\ LET u == Unresolved(reg)
      IN IF u = {} THEN /\ phase' = "externs" /\ UNCHANGED <<start, todo, hist>>
-        ELSE /\ phase' = "pass" /\ start' = u /\ todo' = u /\ hist' = Append(hist, <<>>)
+        ELSE /\ phase' = "pass" /\ start' = u /\ todo' = u /\ hist' = Append(hist, [s |-> u, p |-> <<>>])
   /\ UNCHANGED <<input, added, mods, reg, err, out>>
 
 ApplyIns(r, ins) == IF ins = <<>> THEN r ELSE RegPut(r, ins[1][1], ins[1][2])
@@ -112,7 +112,7 @@ DoAttempt(p) ==
       d == ModRec(item.src[1]).defs[item.src[2]]
       a == Attempt(reg, input.ptr, m, item.src, p, d)
       reg1 == ApplyIns(reg, a.ins)
-  IN /\ hist' = [hist EXCEPT ![Len(hist)] = Append(@, p)]
+  IN /\ hist' = [hist EXCEPT ![Len(hist)] = [@ EXCEPT !.p = Append(@, p)]]
      /\ todo' = todo \ {p}
      /\ IF item.st = "R"     \* replaced by a resolved entry earlier in this pass: skipped
         THEN UNCHANGED <<reg, mods, phase, err>>
@@ -135,7 +135,7 @@ EndPass ==
         THEN /\ phase' = "failed" /\ err' = "nonterm" /\ UNCHANGED <<start, todo, hist>>
         ELSE IF u = {}
         THEN /\ phase' = "externs" /\ UNCHANGED <<start, todo, hist, err>>
-        ELSE /\ start' = u /\ todo' = u /\ hist' = Append(hist, <<>>) /\ UNCHANGED <<phase, err>>
+        ELSE /\ start' = u /\ todo' = u /\ hist' = Append(hist, [s |-> u, p |-> <<>>]) /\ UNCHANGED <<phase, err>>
   /\ UNCHANGED <<input, added, mods, reg, out>>
 
 (* resolve_extern_values: every extern value's type must resolve now       *)
